@@ -191,11 +191,12 @@ def defs_sorted(text):
     return etree.tostring(root).decode()
 
 
-def equivalent_modulo_gradients(a, b, tol=3e-6):
-    """O4: equal up to gradient id numbering, order inside defs and the last rounded digit of gradient parameters"""
+def gradient_number_gap(a, b):
+    """O4: None if the two documents differ in anything but gradient id numbering, order inside defs and the numbers of
+    gradient parameters; otherwise the largest difference between corresponding gradient numbers, relative to max(1, |x|)"""
     ca, cb = canonical_modulo_gradient_ids(a), canonical_modulo_gradient_ids(b)
     if ca == cb:
-        return True
+        return 0.0
 
     def split(c):
         root = etree.fromstring(c.encode())
@@ -210,4 +211,12 @@ def equivalent_modulo_gradients(a, b, tol=3e-6):
         return etree.tostring(root, method="c14n", exclusive=True).decode(), nums
 
     (sa, na), (sb, nb) = split(ca), split(cb)
-    return sa == sb and len(na) == len(nb) and all(abs(x - y) <= tol * max(1.0, abs(x)) for x, y in zip(na, nb))
+    if sa != sb or len(na) != len(nb):
+        return None
+    return max((abs(x - y) / max(1.0, abs(x)) for x, y in zip(na, nb)), default=0.0)
+
+
+def equivalent_modulo_gradients(a, b, tol=3e-6):
+    """O4: equal up to gradient id numbering, order inside defs and the last rounded digit of gradient parameters"""
+    gap = gradient_number_gap(a, b)
+    return gap is not None and gap <= tol
